@@ -114,6 +114,31 @@ def proj_check(case):
             ok, pw = res.lib(name, fn, w, key=key + ":" + name)
             if ok:
                 res.claim(name + ":identity_on_divergence_free:" + tag, float(np.max(np.abs(pw - w))), 1e-11 * (float(np.max(np.abs(w))) + 1e-300), key=key + ":" + name + ":identity")
+    # scale and near-solenoidal inputs: the projection is linear - a tiny field, or a tiny compressible part on top
+    # of a solenoidal field, is projected just the same (no absolute or relative "close enough" shortcut)
+    for name, fn in (("leray", leray), ("make_incompressible", mkinc)):
+        if name not in outs:
+            continue
+        for tag, x in (("tiny_field", 1e-9 * u), ("nearly_solenoidal", ref + 1e-7 * (u - ref))):
+            ok, px = res.lib(name, fn, x, key=key + ":" + name)
+            if ok:
+                want_x = orc.leray_np(x)
+                # measured against the size of the part that has to be removed
+                removed = float(np.max(np.abs(x - want_x))) + 1e-300
+                res.claim(name + ":linear:" + tag, float(np.max(np.abs(px - want_x))), 1e-4 * removed + 1e-13 * float(np.max(np.abs(x))), key=key + ":" + name + ":linearity")
+    # indexing="xy": channel 0 belongs to array axis 1 and vice versa -> the result must be the "ij" result of the
+    # axis-swapped field, swapped back; called between two "ij" calls on the same grid (a history ij, xy, ij: nothing
+    # may be remembered from one call to the next)
+    if "make_incompressible" in outs:
+        def sw(x):
+            return np.swapaxes(x, 1, 2)
+
+        ok, pxy = res.lib("make_incompressible_xy", lambda: np.asarray(ex.spectral.make_incompressible(jnp.asarray(sw(u)), indexing="xy")), key=key + ":make_incompressible:xy")
+        if ok and res.true("make_incompressible_xy:shape", pxy.shape == u.shape, key=key + ":make_incompressible:xy"):
+            res.claim("make_incompressible:xy_equals_swapped_ij", float(np.max(np.abs(sw(pxy) - outs["make_incompressible"]))), 1e-11 * amp, key=key + ":make_incompressible:xy")
+        ok, again = res.lib("make_incompressible", mkinc, u, key=key + ":make_incompressible")
+        if ok:
+            res.claim("make_incompressible:same_result_after_an_xy_call", float(np.max(np.abs(again - outs["make_incompressible"]))), 0.0, key=key + ":make_incompressible:history")
     if len(outs) == 2:
         res.claim("leray_equals_make_incompressible", float(np.max(np.abs(outs["leray"] - outs["make_incompressible"]))), 1e-11 * amp, key=key + ":agreement")
     return res
